@@ -33,12 +33,15 @@ BOUNDS = {
              'ThreadedStorage over Hdf5Storage and fault injection (the i-th disk operation raises): 3 operations; '
              'threaded-deep: ThreadedStorage over PickleStorage on a REDUCED alphabet (one key; set, read, del, preload, '
              'set_short_term_keys(k), set_short_term_keys(); no sub-cache, close only at the end): all sequences of 5 operations x '
-             'every worker progress; models.selftest: fixed scenarios executed on the real Worker under a deadline (plain '
+             'every worker progress; cache-deep: Storage / PickleStorage / Hdf5Storage (non-threaded) on a REDUCED alphabet (2 keys; '
+             'set, read, preload, set_short_term_keys(k) per key, set_short_term_keys(), set_short_term_keys(a, b); no del, no '
+             'sub-cache, close only at the end): all sequences of 5 operations; models.selftest: fixed scenarios executed on the real Worker under a deadline (plain '
              'execution in both modes validating the Worker contract model, not a solver claim)',
     'thorough': 'EventHandler: 5 operations; caches: 5 operations incl. sub-caches for Storage; PickleStorage / Hdf5Storage: 5 '
                 'operations without sub-caches and 4 operations with sub-caches; ThreadedStorage over PickleStorage: 4 operations '
                 '(with sub-caches), over Hdf5Storage: 4 operations without and 3 with sub-caches; fault injection: 4 operations; '
-                'threaded-deep (reduced one-key alphabet): 6 operations',
+                'threaded-deep (reduced one-key alphabet): 6 operations; cache-deep (reduced two-key alphabet): 6 operations for '
+                'Storage, 5 for PickleStorage / Hdf5Storage',
 }
 OUTSIDE = ('the real Worker thread (real threads, queue time-outs, deadlock freedom of close): NOT APPLICABLE to the solver, replaced by '
            'a contract model; the model is validated by executing fixed scenarios (FIFO, failing task while the caller waits in '
@@ -260,6 +263,20 @@ class _Driver:
             ops += [('close', 0, None), ('exit', 0, None)]
         return ops
 
+    def alphabet_deep2(self):
+        """reduced alphabet for longer non-threaded sequences: 2 keys; set, read, preload, set_short_term_keys(k) per key,
+        set_short_term_keys(), set_short_term_keys(a, b); no del, no sub-cache, the cache is closed at the end"""
+        keys = list(self.used_keys)
+        for k in KEYS:
+            if k not in keys:
+                keys.append(k)
+                break
+        ops = []
+        for k in keys:
+            ops += [('set', 0, k), ('read', 0, k), ('preload', 0, k), ('short', 0, k)]
+        ops += [('short', 0, None), ('short2', 0, None)]
+        return ops
+
     # ---------------------------------------------------------------- one operation
     def apply(self, op, ti, k, t):
         ctx = self.ctx
@@ -324,6 +341,9 @@ class _Driver:
             else:
                 cache.set_short_term_keys(k)
                 M.short = {k}
+        elif op == 'short2':
+            cache.set_short_term_keys(*KEYS)
+            M.short = set(KEYS)
         elif op == 'subcache':
             sub = cache.create_subcache(SUB)
             if self.threaded:
@@ -403,13 +423,14 @@ class _NoDir:
         return False
 
 
-def cache_case(ctx, storage, n_ops, first=None, with_sub=True):
-    """DictCache / CacheFile over a non-threaded storage against the dict model"""
+def cache_case(ctx, storage, n_ops, first=None, with_sub=True, deep=False):
+    """DictCache / CacheFile over a non-threaded storage against the dict model (deep=True: reduced alphabet, see
+    _Driver.alphabet_deep2, for longer sequences; the cache is closed and checked at the end of every sequence)"""
     with (tempdir('verif_c20_') if storage != 'Storage' else _NoDir()) as td:
         drv = _Driver(ctx, storage, td)
         try:
             for t in range(n_ops):
-                ops = _part(drv.alphabet(with_sub, allow_close=True), first, t)
+                ops = _part(drv.alphabet_deep2() if deep else drv.alphabet(with_sub, allow_close=True), first, t)
                 if not ops:
                     ctx.prove(True, 'empty part of the alphabet')
                     break
@@ -417,6 +438,8 @@ def cache_case(ctx, storage, n_ops, first=None, with_sub=True):
                 drv.apply(op, ti, k, t)
                 if drv.closed:
                     break
+            if deep and not drv.closed:
+                drv.close('close')
         except StopPath:
             pass
         finally:
@@ -556,14 +579,14 @@ def CASES(tier, seed):
     # alphabet of the first step: set/read/del/preload/short{a}/short{}/subcache/close/exit = 9 (8 without sub-cache)
 
     def add(kind, storage, n, with_sub, parts, fault=False, deep=False):
-        fn = 'cache_case' if kind == 'cache' else 'threaded_case'
+        fn = 'cache_case' if kind in ('cache', 'cache-deep') else 'threaded_case'
         for first in parts:
             params = dict(storage=storage, n_ops=n, first=first, with_sub=with_sub)
             if fault:
                 params['fault'] = True
             if deep:
                 params['deep'] = True
-            tag = '1key' if deep else ('sub' if with_sub else 'nosub')
+            tag = ('2keys-reduced' if kind == 'cache-deep' else '1key') if deep else ('sub' if with_sub else 'nosub')
             cases.append(dict(name=f"{kind}[{storage},n={n},{tag},part={_tag(first)}]", fn=fn, params=params, opts=dict(big)))
 
     if not thorough:
@@ -573,6 +596,8 @@ def CASES(tier, seed):
             add('threaded', storage, 3, True, _parts(3))
         add('threaded-fault', 'PickleStorage', 3, False, _parts(4), fault=True)
         add('threaded-deep', 'PickleStorage', 5, False, _parts(6, 6), deep=True)
+        for storage in ('Storage', 'PickleStorage', 'Hdf5Storage'):
+            add('cache-deep', storage, 5, False, _parts(6), deep=True)
     else:
         add('cache', 'Storage', 5, True, _parts(9, 4))
         for storage in ('PickleStorage', 'Hdf5Storage'):
@@ -585,4 +610,7 @@ def CASES(tier, seed):
         # first operation `set` carries 2/3 of the paths: split it over the second and third operation as well
         deep_parts = [[[0, 6], [j, 6], [k, 3]] for j in range(6) for k in range(3)] + [p for p in _parts(6, 6) if p[0][0] != 0]
         add('threaded-deep', 'PickleStorage', 6, False, deep_parts, deep=True)
+        add('cache-deep', 'Storage', 6, False, _parts(6, 6), deep=True)
+        for storage in ('PickleStorage', 'Hdf5Storage'):
+            add('cache-deep', storage, 5, False, _parts(6), deep=True)
     return cases
